@@ -27,6 +27,34 @@ def gen_enc_cases(seed, tier, type_filter=None):
         for j in range(par['values_per_type']):
             v = gen_val(t, rng, par['size'])
             cases.append(('e%d_%d' % (tid, j), tid, t, show(v)))
+    return cases + gen_big_cases(seed, tier, type_filter)
+
+
+BIG_TYPES = ['(seq vec (prim u8))', '(text string)', '(seq deque (prim u8))', '(wrap box (seq slice (prim u8)))',
+             '(text bytes)', '(prod tuple (text string) (seq vec (prim u8)) (sum option (prod (variant () ())) (prim bool)))',
+             '(seq vec (seq vec (prim u8)))']
+
+
+def gen_big_cases(seed, tier, type_filter=None):
+    """Byte vectors longer than the decoder's 1 MiB first chunk (the doubling path)."""
+    rng = random.Random(seed * 104729 + 7)
+    sizes = [2 ** 20 + 1, 2 ** 21 + 5] if tier == 'quick' else [2 ** 20, 2 ** 20 + 1, 2 ** 21 - 1, 2 ** 21 + 5, 3 * 2 ** 20 + 7, 2 ** 22 + 1]
+    cases = []
+    for tid, t in catmod.catalogue_types():
+        sx = sexp(t)
+        if sx not in BIG_TYPES or (type_filter and not type_filter(t)):
+            continue
+        for j, n in enumerate(sizes if sx in BIG_TYPES[:2] else sizes[:1]):
+            blob = '(b %s)' % bytes((i * 7 + j + 0x61) % 0x7f + 1 if i % 4096 else 0x70 for i in range(n)).hex()
+            if sx.startswith('(seq deque'):
+                v = '(l %s (l))' % blob
+            elif sx.startswith('(prod tuple'):
+                v = '(l (b 6869) %s (v 1 1))' % blob
+            elif sx == '(seq vec (seq vec (prim u8)))':
+                v = '(l (b 0102) %s (b 03))' % blob
+            else:
+                v = blob
+            cases.append(('big%d_%d' % (tid, j), tid, t, v))
     return cases
 
 
